@@ -25,3 +25,7 @@ PROPS["C08"] = coop("TestProp", R + "an empty batch, a rejected/purged item, or 
 PROPS["C09"] = coop("TestProp", R + "a Pause/PauseAndWait/Stop returned while >=1 accepted job was still pending")
 PROPS["C10"] = coop("TestProp", R + "a Close overlapped dispatch of the same job, a Close returned nil, or a Purge ran with >=2 jobs")
 PROPS["C16"] = coop("TestProp", R + "a job was dispatched before its Add returned, or >=2 status samples were taken")
+PROPS["C13"] = coop("TestProp", R + ">=2 consumers compete on one adapter, or a notification arrives while a consumer is busy")
+PROPS["C15"] = coop("TestProp", R + ">=2 populated queues of >=2 different kinds are bound (base schedule; populations and submission order are generated)")
+PROPS["C17"] = coop("TestProp", R + "an introspection sample overlaps an Add, or >=2 queue kinds are bound")
+PROPS["C18"] = coop("TestProp", R + "a TunePool or Restart happened, or idle expiry is configured")
